@@ -186,7 +186,9 @@ func (p *Promise) RegisterContinuationUnsafe(continuation *Promise) {
 }
 
 func (p *Promise) ResolveReject(result, err value.Value) {
+	verifPoint(VerifSettleEnter, p, nil)
 	p.m.Lock()
+	verifPoint(VerifSettleLocked, p, nil)
 
 	queue := p.ThreadPool.TaskQueue
 	p.Body = nil
@@ -194,26 +196,36 @@ func (p *Promise) ResolveReject(result, err value.Value) {
 	p.result = result
 	p.err = err
 	p.wg.Done()
+	verifPoint(VerifSettlePublished, p, nil)
 	p.enqueueContinuations(queue)
+	verifPoint(VerifSettleEnqueued, p, nil)
 
 	p.m.Unlock()
+	verifPoint(VerifSettleDone, p, nil)
 }
 
 func (p *Promise) Resolve(result value.Value) {
+	verifPoint(VerifSettleEnter, p, nil)
 	p.m.Lock()
+	verifPoint(VerifSettleLocked, p, nil)
 
 	queue := p.ThreadPool.TaskQueue
 	p.Body = nil
 	p.ThreadPool = nil
 	p.result = result
 	p.wg.Done()
+	verifPoint(VerifSettlePublished, p, nil)
 	p.enqueueContinuations(queue)
+	verifPoint(VerifSettleEnqueued, p, nil)
 
 	p.m.Unlock()
+	verifPoint(VerifSettleDone, p, nil)
 }
 
 func (p *Promise) Reject(err value.Value, stackTrace *value.StackTrace) {
+	verifPoint(VerifSettleEnter, p, nil)
 	p.m.Lock()
+	verifPoint(VerifSettleLocked, p, nil)
 
 	queue := p.ThreadPool.TaskQueue
 	p.Body = nil
@@ -221,13 +233,17 @@ func (p *Promise) Reject(err value.Value, stackTrace *value.StackTrace) {
 	p.err = err
 	p.stackTrace = stackTrace
 	p.wg.Done()
+	verifPoint(VerifSettlePublished, p, nil)
 	p.enqueueContinuations(queue)
+	verifPoint(VerifSettleEnqueued, p, nil)
 
 	p.m.Unlock()
+	verifPoint(VerifSettleDone, p, nil)
 }
 
 func (p *Promise) enqueueContinuations(queue chan *Promise) {
 	for _, cont := range p.continuations {
+		verifPoint(VerifEnqueue, p, cont)
 		queue <- cont
 	}
 	p.continuations = nil
